@@ -141,4 +141,13 @@ def main(run):
                 run.violation(what, "case: %s\nreference (proved model): %s\nimpl: %s\n" % (ln, mo, co),
                               tag="dec%d" % nbad)
     run.cov["disagreements"] = nbad
+    if run.tier == "thorough":
+        # independent re-check of the compiled proofs (coqchk: kernel only, reports axioms)
+        rc, out = vlib.sh(["coqchk", "-silent", "-o", "-Q", ".", "LibcoapV", "LibcoapV.Properties_C03"],
+                          cwd=vlib.COQ, timeout=1800, check=False)
+        ok = rc == 0 and "* Axioms: <none>" in out
+        run.cov["coqchk"] = "ok, axioms: none" if ok else out[-600:]
+        if not ok:
+            run.violation("coqchk does not accept Properties_C03.vo (or finds axioms)", out[-4000:],
+                          tag="coqchk", no_input=True)
     run.cov["header_sweep_cases"] = nsweep
